@@ -156,8 +156,8 @@ class Gen:
         f = {}
         r = rng.random()
         if r < 0.5:
-            f['sender'] = rng.choice(['org.freedesktop.DBus', ':1.0', ':1.1', 'com.example.A', ':9.9',
-                                      ':1.' + '9' * rng.randint(1, 14), 'a.' + 'b' * rng.randint(1, 20)])
+            f['sender'] = rng.choice(['org.freedesktop.DBus', ':1.0', ':1.1', 'com.example.A', ':9.9', ':1.12345', 'a.bbbbbb',
+                                      ':1.' + '9' * 13, ':1.' + '9' * rng.randint(1, 14), 'a.' + 'b' * rng.randint(1, 20)])
         if rng.random() < 0.4:
             f['unknown'] = [(rng.choice([11, 12, 42, 127, 255]), rng.choice(['s', 'u', 'as', '(su)', 'v']), None)]
             vs = f['unknown'][0][1]
@@ -165,6 +165,8 @@ class Gen:
             f['unknown'] = [(f['unknown'][0][0], vs, val)]
         if rng.random() < 0.2:
             f['ci'] = True
+        if f and rng.random() < 0.5:
+            f['first'] = True          # forged fields ahead of the genuine ones in the header array
         return f or None
 
     def dest(self):
